@@ -501,11 +501,28 @@ func (obj *Flavor) LoadForm() slip.Object {
 		} else {
 			ivs[i] = ksym
 		}
-		if _, has := obj.methods[":"+k]; has {
-			gets = append(gets, ksym)
+	}
+	// The accessor and init options are not limited to the variables written
+	// above: a bare option of defflavor covers every variable the flavor has,
+	// inherited ones included, and a list may name inherited variables. An
+	// accessor the flavor inherits is not written, the component provides it.
+	all := make([]string, 0, len(obj.defaultVars))
+	for k := range obj.defaultVars {
+		if k != "self" {
+			all = append(all, k)
 		}
-		if _, has := obj.methods[":set-"+k]; has {
-			sets = append(sets, ksym)
+	}
+	sort.Strings(all)
+	var inits slip.List
+	for _, k := range all {
+		if obj.ownAccessor(":" + k) {
+			gets = append(gets, slip.Symbol(k))
+		}
+		if obj.ownAccessor(":set-" + k) {
+			sets = append(sets, slip.Symbol(k))
+		}
+		if obj.initable[":"+k] {
+			inits = append(inits, slip.Symbol(k))
 		}
 	}
 	var inh slip.List
@@ -521,34 +538,22 @@ func (obj *Flavor) LoadForm() slip.Object {
 		ivs,
 		inh,
 	}
-	if 0 < len(obj.initable) {
-		if len(obj.initable) == len(keys) {
+	if 0 < len(inits) {
+		if len(inits) == len(all) {
 			df = append(df, slip.Symbol(":inittable-instance-variables"))
 		} else {
-			var iiv slip.List
-			iiv = append(iiv, slip.Symbol(":inittable-instance-variables"))
-			names := make([]string, 0, len(obj.initable))
-			for k, v := range obj.initable {
-				if v {
-					names = append(names, k[1:])
-				}
-			}
-			sort.Strings(names) // not the map order, the form must not change from call to call
-			for _, name := range names {
-				iiv = append(iiv, slip.Symbol(name))
-			}
-			df = append(df, iiv)
+			df = append(df, append(slip.List{slip.Symbol(":inittable-instance-variables")}, inits...))
 		}
 	}
 	if 0 < len(gets) {
-		if len(gets) == len(keys) {
+		if len(gets) == len(all) {
 			df = append(df, slip.Symbol(":gettable-instance-variables"))
 		} else {
 			df = append(df, append(slip.List{slip.Symbol(":gettable-instance-variables")}, gets...))
 		}
 	}
 	if 0 < len(sets) {
-		if len(sets) == len(keys) {
+		if len(sets) == len(all) {
 			df = append(df, slip.Symbol(":settable-instance-variables"))
 		} else {
 			df = append(df, append(slip.List{slip.Symbol(":settable-instance-variables")}, sets...))
@@ -592,6 +597,22 @@ func (obj *Flavor) LoadForm() slip.Object {
 		df = append(df, slip.List{slip.Symbol(":documentation"), slip.String(obj.docs)})
 	}
 	return df
+}
+
+// ownAccessor returns true if the flavor itself, not one of its components,
+// defines the named variable getter or setter.
+func (obj *Flavor) ownAccessor(name string) bool {
+	if m := obj.methods[name]; m != nil {
+		for _, c := range m.Combinations {
+			if c.From == obj {
+				switch c.Primary.(type) {
+				case getter, setter:
+					return true
+				}
+			}
+		}
+	}
+	return false
 }
 
 func (obj *Flavor) inheritedVar(k string, v slip.Object) bool {
